@@ -82,8 +82,20 @@ def judge(site, opts, res, rows, log, part, replay):
                                                               'log': res['log'][-800:]}, replay)
         return
     requested = {}
+    optional_seen = {}
     for e in log:
-        requested.setdefault(canon_request(e), []).append(e['seq'])
+        u = canon_request(e)
+        if u in site.optional:
+            # the URL written in a <base> element: requesting it is neither required nor forbidden - but at most once
+            optional_seen[u] = optional_seen.get(u, 0) + 1
+            continue
+        requested.setdefault(u, []).append(e['seq'])
+    for u, n in optional_seen.items():
+        if n > 1:
+            part.violation('requested-more-than-once/base-element-url/' + cls, {'url': u, 'times': n}, replay)
+    part.count('base_element_urls_requested', len(optional_seen))
+    log = [e for e in log if canon_request(e) not in site.optional]
+    rows = [r for r in rows if r['url'] not in site.optional]
     rowmap = {}
     for r in rows:
         if r['url'] in rowmap:
@@ -217,7 +229,7 @@ def nontrivial_key(site, opts):
 def build_site(case):
     rng = random.Random(case['site_seed'])
     site = sitegen.generate(rng, n_pages=case.get('n_pages'), redirects=case.get('redirects', True), junk_links=True,
-                            link_redirect_targets=case.get('link_redirect_targets', False), frames=True)
+                            link_redirect_targets=case.get('link_redirect_targets', False), frames=True, bases=True)
     if case.get('hub_links'):
         # one page with very many links (around and beyond the 1000-link batches in which a page's links are stored),
         # each to a leaf that nothing else links to
